@@ -257,6 +257,19 @@ class FormulaEval(object):
         if isinstance(s, ast.Expr):
             if isinstance(s.value, ast.Constant):
                 return [("fall", None, st, None)]
+            c = s.value
+            if (isinstance(c, ast.Call) and isinstance(c.func, ast.Attribute) and c.func.attr == "append" and isinstance(c.func.value, ast.Name)
+                    and len(c.args) == 1 and not c.keywords and isinstance(st.env.get(c.func.value.id), tuple)):
+                # list built by append: lists are modelled as immutable tuples, the variable is rebound
+                out = []
+                for v, s2 in self._expr(c.args[0], st):
+                    if isinstance(v, _Raised):
+                        out.append(("return", v, s2, s))
+                        continue
+                    s3 = s2.fork()
+                    s3.env[c.func.value.id] = s3.env[c.func.value.id] + (v,)
+                    out.append(("fall", None, s3, None))
+                return out
             return [("return", _v, s2, s) if isinstance(_v, _Raised) else ("fall", None, s2, None) for _v, s2 in self._expr(s.value, st)]
         if isinstance(s, ast.Assign):
             out = []
